@@ -14,10 +14,12 @@ F_REG = 'atsim/potentials/config/_potential_form_registry.py'
 F_MREG = 'atsim/potentials/config/_modifier_registry.py'
 F_PM = 'atsim/potentials/config/_pymath.py'
 import contracts.modifiers as MD
+import contracts.form_builder as FB
 from pyvc.spec import SpecAcc
 from pyvc.symexec import reduce_fn
-FUNCTIONS = [(F_MOD, '_modifier_from_func_reduce'), (F_MOD, 'sum'), (F_MOD, 'product'), (F_MOD, 'pow'), (F_MOD, 'trans')]
-SPECSEQS = [MD.dens]
+FUNCTIONS = [(F_MOD, '_modifier_from_func_reduce'), (F_MOD, 'sum'), (F_MOD, 'product'), (F_MOD, 'pow'), (F_MOD, 'trans'),
+             (F_PFB, 'Potential_Form_Builder._make_multi_range_tuple'), (F_PFB, 'Potential_Form_Builder.create_potential_function')]
+SPECSEQS = [MD.dens, FB.chain_ranges]
 FnL = z3.SeqSort(Fn)
 # pointwise sum / product of the first t+1 callables at r
 sum_at = SpecAcc('pointwise_sum', [FnL, RealS], lambda fs, r: app(fs[0], r), lambda fs, r, t, prev: prev + app(fs[t + 1], r), result=RealS)
@@ -45,11 +47,8 @@ def lemmas():
     out += [o for o in C07.combinator_obligations('C09') if '/translate' in o.name or 'potential/is-' in o.name or 'transformed/is-' in o.name or 'shift-is' in o.name]
     # trans: argument validation and f(r + X) are the Engine A contract of trans (contracts/modifiers.py)
     # nesting: create_potential_function builds one range per chain member, a modifier calls back into the builder for its arguments
-    out.append(S('C09', F_PFB, 'Potential_Form_Builder._make_multi_range_tuple', 'modifier-or-form-instance',
-                 ["if hasattr(pform_instance, 'modifier'):", 'pform_factory = self.modifier_registry[pform_instance.modifier]', 'pform = pform_factory(pform_instance.potential_forms, self)',
-                  'pform_factory = self.potential_form_registry[pform_instance.potential_form]', 'params = pform_instance.parameters', 'pform = pform_factory(*params)']))
-    out.append(S('C09', F_PFB, 'Potential_Form_Builder.create_potential_function', 'chain-becomes-multi-range',
-                 ['tuples = [self._make_multi_range_tuple(potential_form_instance)]', 'while n:\n tuples.append(self._make_multi_range_tuple(n))\n n = n.next', 'pot_func = create_Multi_Range_Potential_Form(*tuples)']))
+    # Potential_Form_Builder._make_multi_range_tuple and .create_potential_function are under Engine A contracts (contracts/form_builder.py):
+    # one range per chain member, in chain order, each with the callable of the registered form / modifier (which calls back into the builder)
     # parse tree -> tuples with the same structure (grammar acceptance itself is A6)
     out.append(S('C09', F_CP, 'ConfigParser._descend_potential_modifier', 'modifier-tuple',
                  ["modifier_label = modifier_node['modifier_label']", 'for p in modifier_parameters:\n ptuple = self._descend_tree(iter(p))\n params.append(ptuple)', 'n = self._descend_tree(sibling_iterator)',
@@ -90,6 +89,12 @@ def lemmas():
     return out
 
 MUTANTS = [
+    (F_PFB, 'Potential_Form_Builder.create_potential_function', "n = potential_form_instance.next", "n = potential_form_instance", 'init/0'),
+    (F_PFB, 'Potential_Form_Builder.create_potential_function', "while n:", "while n and n.next:", 'post'),
+    (F_PFB, 'Potential_Form_Builder.create_potential_function', "tuples.append(self._make_multi_range_tuple(n))", "tuples.append(self._make_multi_range_tuple(potential_form_instance))", 'preserve/0'),
+    (F_PFB, 'Potential_Form_Builder._make_multi_range_tuple', "range_type = '>='", "range_type = '>'", 'post/marker'),
+    (F_PFB, 'Potential_Form_Builder._make_multi_range_tuple', "pform = pform_factory(*params)", "pform = pform_factory(*params[1:])", 'post/callable'),
+    (F_PFB, 'Potential_Form_Builder._make_multi_range_tuple', "raise UnknownPotentialFormException(*e.args)", "raise e", 'raises'),
     (F_MOD, '_modifier_from_func_reduce', "pot_callables.append(pot_callable)", "pot_callables.insert(0, pot_callable)", 'preserve/0'),
     (F_MOD, 'product', "_modifier_from_func_reduce('product', product,", "_modifier_from_func_reduce('product', plus,", 'post'),
     (F_MOD, 'sum', "_modifier_from_func_reduce('sum', plus,", "_modifier_from_func_reduce('sum', pow,", 'post'),
